@@ -305,7 +305,7 @@ def make_replay_factory(by_name):
     return make_replay
 
 
-def validate_runs(res, prop, path, label, by_name, is_known=None, max_rounds=40):
+def validate_runs(res, prop, path, label, by_name, is_known=None, max_rounds=8):
     """One `run` record per TLC state; an offending record is removed and the
     rest examined (records are independent)."""
     lines = V.read_trace(path)
